@@ -213,6 +213,13 @@ impl Run {
         F: Fn(&T) -> Verdict + Sync,
         C: Fn(&T, &Violation) -> Option<&'static str>,
     {
+        if self.violations.iter().any(|v| v.violation.kind.starts_with("hang")) {
+            // every further case that hangs costs a watchdog period plus a confirmation: the verdict (exit 1) is already
+            // decided, so the remaining campaigns are skipped rather than run into the driver's time limit
+            eprintln!("campaign {} skipped: a confirmed hang was already reported in this run", name);
+            self.extra.insert(format!("skipped_after_hang:{}", name), json!(true));
+            return;
+        }
         let t0 = Instant::now();
         let shards = self.threads.max(1).min(cases.max(1) as usize);
         let stats = Mutex::new(CampaignStats::default());
